@@ -5,6 +5,7 @@ C09 — replies propagate only good contacts, nearest buckets first, right famil
 import DhtVerif.Model.Table
 import DhtVerif.Props.C05
 import DhtVerif.Lemmas.C09
+import DhtVerif.Props.SourceTrees
 namespace Dht
 
 /-- The reply size is the K of the source. -/
@@ -105,5 +106,15 @@ example :
     closestAllowed cfg 0 tbl all 8 (idOf 2) [nd 3 3, nd 2 2, nd 4 4, nd 1 1] = false ∧
     closestDet cfg 0 tbl all 3 (idOf 2) = [nd 2 2, nd 3 3, nd 4 4] ∧
     tbl.Nodup := by decide +kernel
+
+/-- T1 by translation: `shouldReturnNodes` / `shouldReturnNodes6` in server.go are the model's BEP 32 gates,
+and `Server.IsGood` / `Server.nodeErr` are the model's `isGood` / `isBad`, for all arguments. -/
+theorem C09.gates_and_goodness_are_the_source (want : List (List UInt8)) (srcIp : List UInt8) (c : TableCfg) (now : Nat) (n : Node) :
+    DExp.evalWith (srnCond want srcIp) (srnRet want srcIp) Gen.treeShouldReturnNodes = some (shouldReturnNodes want srcIp) ∧
+    DExp.evalWith (srnCond want srcIp) (srnRet want srcIp) Gen.treeShouldReturnNodes6 = some (shouldReturnNodes6 want srcIp) ∧
+    DExp.evalWith (isGoodCond c n) (isGoodRet c now n) Gen.treeIsGood = some (isGood c now n) ∧
+    DExp.evalWith (nodeErrCond c n) nodeErrRet Gen.treeNodeErr = some (isBad c n) :=
+  ⟨(SourceTrees.shouldReturnNodes want srcIp).1, (SourceTrees.shouldReturnNodes want srcIp).2,
+   SourceTrees.isGood c now n, SourceTrees.nodeErr c n⟩
 
 end Dht
